@@ -1276,13 +1276,14 @@ fn finish(args: &Args, report: &Report, selftest: u32, replay: bool) {
     report.finish(
         args,
         "exploration",
-        "history = seeded list of commits (single change sets and lists with overlapping columns/disjoint keys, inserts+removes, keys over {00,01,7F,FE,FF}^0..3 and 32-byte-head keys on the prefix-extractor column) applied to MemoryStore, RocksDb and HistoricalRocksDB x {NoRewind, RewindFullRange, RewindRange 1/2/5} with reopen; one evaluation = one backend answer (commit+contents, get, iter_store/iter_store_keys query, held snapshot) compared with the sorted-map model; a query is counted distinct/non-trivial when its expected result is a non-empty strict subset of the column, keyed by (column contents, prefix, start, direction)",
+        "history = seeded list of commits (single change sets and lists with overlapping columns/disjoint keys, inserts+removes, keys over {00,01,7F,FE,FF}^0..3 and 32-byte-head keys on the prefix-extractor column) applied to MemoryStore, RocksDb and HistoricalRocksDB x {NoRewind, RewindFullRange, RewindRange 1/2/5} (quick tier: NoRewind, RewindFullRange and one rotating RewindRange size per history) with close/reopen, half of the histories with a block cache; single change sets are also read back through ChangesIterator; one evaluation = one backend answer (commit+contents, get, iter_store/iter_store_keys query, held snapshot) compared with the sorted-map model; a query is counted distinct/non-trivial when its expected result is a non-empty strict subset of the column, keyed by (column contents, prefix, start, direction)",
         false,
         &[
             "commits containing the same (column,key) in two list elements are outside the compared domain (backends legitimately reject them differently); generated as the last commit of ~6% of the histories and only recorded",
             "queries with prefix and start where start does not begin with prefix are outside the documented contract and excluded (counted)",
             "on the column with a RocksDB fixed-prefix extractor (ContractsState, 32 bytes) keys have at least 32 bytes and forward prefix queries use prefixes of at least 32 bytes (RocksDB InDomain contract); shorter prefixes are only queried in reverse direction",
-            "RocksDB opened with DatabaseConfig::config_for_tests (no block cache, lazy columns)",
+            "RocksDB opened with DatabaseConfig::config_for_tests (lazy columns), with and without a 6 MiB cache",
+            "a panic inside commit_changes / iter_store / get of a backend is reported as a violation (the backend did not deliver the contents the others hold)",
         ],
     );
 }
